@@ -505,7 +505,7 @@ package fzf
 // record into the leftover buffer.  (Ghost "owned" bits are set by the pusher effect; every write to
 // []byte memory in this function carries the obligation that the cell is not owned.)
 //@ func Reader.feed
-//@ property C06
+//@ property C06 C07
 //@ track own uint8
 //@ requires r != nil
 // Byte accounting with two ghost counters: nread = bytes returned by Read so far, ncut = bytes that have been
@@ -745,6 +745,7 @@ package fzf
 //@ ensures fresh(result) ==> result.fuzzy == fuzzy && result.fuzzyAlgo == fuzzyAlgo && result.extended == extended && result.forward == forward && result.withPos == withPos && result.denylist == denylist && result.nth == nth
 //@ ensures fresh(result) ==> result.procFun != nil && mapget(result.procFun, termFuzzy) == fuzzyAlgo && mapget(result.procFun, termEqual) == algo.EqualMatch && mapget(result.procFun, termExact) == algo.ExactMatchNaive && mapget(result.procFun, termExactBoundary) == algo.ExactMatchBoundary && mapget(result.procFun, termPrefix) == algo.PrefixMatch && mapget(result.procFun, termSuffix) == algo.SuffixMatch
 //@ ensures fresh(result) && !extended ==> result.normalize ==> normalize
+//@ ensures fresh(result) && !extended ==> len(result.text) == len(runes) -- without extended syntax the query is taken as typed, leading and trailing blanks included
 // (extended mode) the search scope of a query may be narrowed from cached results of another query only if every term is
 // a plain one of the mode's default kind - no OR, no negation, no ^ $ ' forms, whose matches are not a subset of the
 // matches of their text as a plain term; and the result is sorted only if some term is not negated.
